@@ -46,8 +46,12 @@ CredOpen(c) == c \in {"twoFirstGood", "twoFirstBad"}
 \* ownNominated: the chain carries this instance's element and the request also says "Connection: Via" - the request
 \* has still passed through this instance
 ViaClasses == {"none", "others", "othersTwoLines", "sameNameOtherInst", "ownOnly", "ownThenOther", "otherThenOwn", "ownSecondLine", "ownWithComment",
-               "ownNominated"}
-ViaLoop(v) == v \in {"ownOnly", "ownThenOther", "otherThenOwn", "ownSecondLine", "ownWithComment", "ownNominated"}
+               "ownNominated",
+               \* the same with the option spelt in lower case / upper case inside a list (connection options are
+               \* case-insensitive); othersNominated: only other hops' elements, nominated - they stay in the chain
+               "ownNominatedLower", "ownNominatedList", "othersNominated"}
+ViaLoop(v) == v \in {"ownOnly", "ownThenOther", "otherThenOwn", "ownSecondLine", "ownWithComment", "ownNominated",
+                     "ownNominatedLower", "ownNominatedList"}
 
 (* ---------- upstream selection (C05) ---------- *)
 PacResults == {"empty", "DIRECT", "PROXY_A", "HTTP_A", "HTTPS_B", "SOCKS5_C", "SOCKS_C", "SOCKS4_C",
